@@ -1,6 +1,7 @@
 """C10 Runs are deterministic and model instances are isolated - differential over fresh
 interpreters (several hash seeds), in-process sequences and worker assignment, plus a digest of
 process-global objects between models."""
+import copy
 import json
 import os
 import subprocess
@@ -26,9 +27,9 @@ ASSUMPTIONS = [
     "process-global objects digested: crop_params, default arguments of the entity constructors and compute_variables, class attributes of AquaCropModel/ModelConstants/entity classes",
 ]
 FLOORS = {
-    "quick": {"fresh_interpreters": 120, "in_process_sequences": 150, "configs_compared": 30,
+    "quick": {"pool_water_table": 1, "pool_water_table_coarse_soil": 1, "pool_water_table_many_observations": 1, "pool_thermal_crop": 1, "pool_switch_gdd": 1, "pool_schedule": 1, "sibling_sensitivity": 1, "interleaved_sequences": 1, "fresh_interpreters": 120, "in_process_sequences": 150, "configs_compared": 30,
               "global_digests": 600, "digests_compared": 300},
-    "thorough": {"fresh_interpreters": 1000, "in_process_sequences": 1500, "configs_compared": 250,
+    "thorough": {"pool_water_table": 1, "pool_water_table_coarse_soil": 1, "pool_water_table_many_observations": 1, "pool_thermal_crop": 1, "pool_switch_gdd": 1, "pool_schedule": 1, "sibling_sensitivity": 1, "interleaved_sequences": 1, "fresh_interpreters": 1000, "in_process_sequences": 1500, "configs_compared": 250,
                  "global_digests": 6000, "digests_compared": 3000},
 }
 CASE_TIMEOUT = {"quick": 400, "thorough": 1200}
@@ -43,7 +44,7 @@ def pool(tier, seed):
         if i % 4 == 1:
             # state that leaks between instances shows under stress: water-logged root zones
             kw.update(p_gw=1.0, gw_depths=(0.5, 0.8, 1.0, 1.3), wet=True, p_custom=0.0,
-                      soil_names=["Clay", "ClayLoam", "SiltClay", "Paddy", "Loam"])
+                      soil_names=["Clay", "Sand", "SandyLoam", "Paddy", "LoamySand", "ClayLoam", "SandyLoam", "Loam"])
         if i % 4 == 3:
             kw.update(methods=(3,))
         sp = gen.config(rng, **kw)
@@ -161,6 +162,7 @@ def sibling(sp, rng, kind):
     return a
 
 
+SENS_PARAMS = ["CCx", "WP", "Zmax", "Kcb", "HI0", "PlantPop", "SeedSize", "CGC", "CDC", "Tbase", "fshape_r", "a_HI", "WPy", "Emergence", "EmergenceCD"]
 SIBLING_KINDS = ["weather", "soil", "irr", "crop_kw", "co2", "iwc", "gw", "fm", "planting", "subsoil", "crop_param", "crop_param"]
 
 
@@ -204,6 +206,29 @@ def cases(tier, seed):
             plan.insert(1, {"spec": sibling(specs[b], rng, SIBLING_KINDS[int(rng.integers(0, len(SIBLING_KINDS)))]),
                             "run": True, "idx": -1})
         out.append({"kind": "seq", "b": b, "plan": plan, "sibling": kind})
+    # sensitivity loops: the same configuration with ONE tabulated crop parameter changed a little /
+    # a lot runs first - whatever is remembered per crop under a key that omits that parameter shows
+    cat = common.crop_catalogue()
+    groups = {}
+    for k, sp_ in enumerate(specs):
+        c = cat[sp_["crop"]["name"]]
+        if sp_["crop"].get("kw", {}).get("SwitchGDD"):
+            continue
+        groups.setdefault((int(c["CalendarType"]), int(c["CropType"]) == 3), []).append(k)
+    members = [v[j % len(v)] for _, v in sorted(groups.items()) for j in range(1 if tier == "quick" else 4)]
+    for b in members:
+        c = cat[specs[b]["crop"]["name"]]
+        for name in SENS_PARAMS:
+            if name not in c or not isinstance(c[name], (int, float)) or float(c[name]) <= 0:
+                continue
+            for f in (0.99, 0.96, 0.7):
+                a = copy.deepcopy(specs[b])
+                v = float(c[name]) * f
+                a["crop"]["kw"] = dict(a["crop"].get("kw", {}), **{name: (round(v) if name in ("PlantPop",) else round(v, 5))})
+                # in an interpreter of its own: in a long-lived worker an earlier case may already
+                # have filled whatever is remembered with the member's own values
+                out.append({"kind": "fresh", "b": b, "sibling": "sensitivity", "sens": name, "hashseeds": ["0"],
+                            "plan": [{"spec": a, "run": True, "idx": -1}, {"spec": specs[b], "run": True, "idx": b}]})
     # interleaved: the member is stepped for a while, another model runs to its end, the member continues
     nint = base.n_cases(40, 400, tier)
     for j in range(nint):
@@ -249,6 +274,9 @@ def run_case(case):
                 notes.append("fresh interpreter timed out")
                 continue
             cov["fresh_interpreters"] += 1
+            if case.get("sens"):
+                cov["sibling_sensitivity"] += 1
+                cov["sens_" + case["sens"]] += 1
             cov["executions"] += len(plan)
             if p.returncode != 0:
                 notes.append("fresh interpreter failed: " + p.stderr[-300:])
@@ -268,6 +296,8 @@ def run_case(case):
         if case.get("sibling"):
             cov["sibling_sequences"] += 1
             cov["sibling_" + case["sibling"]] += 1
+            if case.get("sens"):
+                cov["sens_" + case["sens"]] += 1
         cov["executions"] += sum(1 for it in plan if it.get("run", True))
         check_globals(out["globals"], acc, f"an in-process sequence in worker {os.getpid()}")
         for pos, (item, dg, st) in enumerate(zip(plan, out["digests"], out["status"])):
@@ -321,6 +351,28 @@ def finalize(cases_, results, tier):
         c = results[0].setdefault("cov", {})
         c["configs_compared"] = nconf
         c["digests_compared"] = ncmp
+        # what the pool of configurations contains (a class that silently empties would blind
+        # the comparison to whatever only that class can show)
+        seen_specs = {}
+        for cs in cases_:
+            for it in cs["plan"]:
+                if it.get("idx", -1) is not None and it.get("idx", -1) >= 0:
+                    seen_specs[it["idx"]] = it["spec"]
+        cat = common.crop_catalogue()
+        for sp_ in seen_specs.values():
+            hyd = [h for h in gen.layer_hyd(sp_["soil"]) if h]
+            if sp_.get("gw"):
+                c["pool_water_table"] = c.get("pool_water_table", 0) + 1
+                if hyd and min(h[1] for h in hyd) < 0.3:
+                    c["pool_water_table_coarse_soil"] = c.get("pool_water_table_coarse_soil", 0) + 1
+                if len(sp_["gw"]["dates"]) > 3:
+                    c["pool_water_table_many_observations"] = c.get("pool_water_table_many_observations", 0) + 1
+            if cat[sp_["crop"]["name"]]["CalendarType"] == 2:
+                c["pool_thermal_crop"] = c.get("pool_thermal_crop", 0) + 1
+            if sp_["crop"].get("kw", {}).get("SwitchGDD"):
+                c["pool_switch_gdd"] = c.get("pool_switch_gdd", 0) + 1
+            if S.irr_method(sp_) == 3:
+                c["pool_schedule"] = c.get("pool_schedule", 0) + 1
     for r in results:
         r.pop("digs", None)
     return {"configurations_with_two_or_more_settings": nconf}
